@@ -50,20 +50,24 @@ def _has_loop_break(block):
     return False
 
 
-def _replace_continue(block, mk):
+def _replace_jumps(block, mk_continue, mk_break):
+    """`continue` / `break` of *this* loop (not of nested loops) replaced by statement lists"""
     out = []
     for s in block:
         if isinstance(s, ast.Continue):
-            out.append(mk(s))
+            out.extend(mk_continue(s))
+            continue
+        if isinstance(s, ast.Break):
+            out.extend(mk_break(s))
             continue
         if not isinstance(s, (ast.For, ast.While, ast.FunctionDef)):
             for fld in ("body", "orelse", "finalbody"):
                 sub = getattr(s, fld, None)
                 if isinstance(sub, list) and sub and isinstance(sub[0], ast.stmt):
-                    setattr(s, fld, _replace_continue(sub, mk))
+                    setattr(s, fld, _replace_jumps(sub, mk_continue, mk_break))
             if isinstance(s, ast.Try):
                 for h in s.handlers:
-                    h.body = _replace_continue(h.body, mk)
+                    h.body = _replace_jumps(h.body, mk_continue, mk_break)
         out.append(s)
     return out
 
@@ -90,38 +94,55 @@ class _Ren(ast.NodeTransformer):
 
 
 def loop_to_recursion(f):
-    """-> new FunctionDef or None"""
+    """-> new FunctionDef or None
+
+    forms:  [aliases]; while True: B                       (no break: nothing may follow)
+            [aliases]; while C: B; T...                    == if C: B; <recurse>  else: T
+            `break` stands for "run T and leave"; in a generator the recursion is `yield from f(..); return`"""
     fn = f.node
-    if f.is_generator or f.is_static or f.is_property or f.vararg or f.kwarg:
+    if f.is_static or f.is_property or f.vararg or f.kwarg:
         return None
     body = list(fn.body)
     doc = []
     if body and isinstance(body[0], ast.Expr) and isinstance(body[0].value, ast.Constant) and isinstance(body[0].value.value, str):
         doc, body = body[:1], body[1:]
-    if not body or not isinstance(body[-1], ast.While):
+    idx = [i for i, s_ in enumerate(body) if isinstance(s_, ast.While)]
+    if not idx:
         return None
-    loop = body[-1]
-    if not (isinstance(loop.test, ast.Constant) and loop.test.value is True) or loop.orelse:
+    li = idx[0]
+    loop = body[li]
+    tail = body[li + 1:]
+    if loop.orelse:
+        return None
+    always = isinstance(loop.test, ast.Constant) and loop.test.value is True
+    gen = f.is_generator
+    if gen and any(isinstance(n, ast.Return) and n.value is not None for n in ast.walk(fn)):
         return None
     params = list(f.params) + list(f.kwonly)
     recv = None
     if f.cls is not None:
         recv, params = params[0], params[1:]
     alias = {}
-    for s in body[:-1]:
+    for s in body[:li]:
         if isinstance(s, ast.Assign) and len(s.targets) == 1 and isinstance(s.targets[0], ast.Name) and isinstance(s.value, ast.Name) \
                 and s.value.id in params and s.targets[0].id not in params and s.value.id not in alias.values():
             alias[s.targets[0].id] = s.value.id
         else:
             return None
     B = copy.deepcopy(loop.body)
-    if _has_loop_break(B):
+    T = copy.deepcopy(tail)
+    has_break = _has_loop_break(B)
+    if always and tail and not has_break:
+        return None  # unreachable code after an endless loop: not a form a refactoring produces
+    if any(isinstance(n, (ast.While, ast.For)) for s in T for n in ast.walk(s)):
         return None
-    # an aliased parameter must not be used under its own name inside the loop
-    used = {n.id for s in B for n in ast.walk(s) if isinstance(n, ast.Name)}
+    # an aliased parameter must not be used under its own name inside the loop / after it
+    used = {n.id for s in B + T + ([] if always else [ast.Expr(value=loop.test)]) for n in ast.walk(s) if isinstance(n, ast.Name)}
     if any(p in used for p in alias.values()):
         return None
     B = [_Ren(alias).visit(s) for s in B]
+    T = [_Ren(alias).visit(s) for s in T]
+    test = None if always else _Ren(alias).visit(copy.deepcopy(loop.test))
     assigned = _assigned(B)
     state = assigned & set(params)
     if not state:
@@ -129,18 +150,39 @@ def loop_to_recursion(f):
     for nme in assigned - set(params):
         if not _first_use_is_store(B, nme):
             return None  # a local that carries a value into the next round
-    if any(isinstance(n, (ast.Yield, ast.YieldFrom, ast.Global, ast.Nonlocal)) for s in B for n in ast.walk(s)):
+        # ... or out of the loop into what follows it
+        if any(isinstance(n, ast.Name) and n.id == nme and isinstance(n.ctx, ast.Load) for s in T for n in ast.walk(s)) and not _first_use_is_store(T, nme):
+            return None
+    if any(isinstance(n, (ast.Global, ast.Nonlocal)) for s in B + T for n in ast.walk(s)):
+        return None
+    if not gen and any(isinstance(n, (ast.Yield, ast.YieldFrom)) for s in B + T for n in ast.walk(s)):
+        return None
+    n_break = sum(1 for s in B for n in ast.walk(s) if isinstance(n, ast.Break))
+    if n_break > 1 and len(T) > 4:
         return None
 
     def call(at):
         callee = ast.Attribute(value=ast.Name(id=recv, ctx=ast.Load()), attr=fn.name, ctx=ast.Load()) if recv else ast.Name(id=fn.name, ctx=ast.Load())
         c = ast.Call(func=callee, args=[ast.Name(id=p, ctx=ast.Load()) for p in params], keywords=[])
-        return ast.copy_location(ast.Return(value=c), at)
-    B = _replace_continue(B, call)
+        if gen:
+            return [ast.copy_location(ast.Expr(value=ast.YieldFrom(value=c)), at), ast.copy_location(ast.Return(value=None), at)]
+        return [ast.copy_location(ast.Return(value=c), at)]
+
+    def leave(at):
+        out = copy.deepcopy(T)
+        if not _ends(out):
+            out.append(ast.copy_location(ast.Return(value=None), at))
+        return out
+    B = _replace_jumps(B, call, leave)
     if not _ends(B):
-        B.append(call(loop))
+        B.extend(call(loop))
     new = copy.copy(fn)
-    new.body = doc + B
+    if always:
+        new.body = doc + B
+    else:
+        new.body = doc + [ast.copy_location(ast.If(test=test, body=B, orelse=[]), loop)] + T
+        if not new.body:
+            return None
     ast.fix_missing_locations(new)
     return new
 
